@@ -5,6 +5,7 @@ index x 5 calendar algos x 8 flag settings x every date (+ synthetic row, None, 
 counters over all n / offset; and the schedulers inside real backtests."""
 import datetime
 import itertools
+import json
 
 import numpy as np
 import pandas as pd
@@ -222,6 +223,70 @@ def backtest_case(item):
     return (len(index), 1, viols, len(viols))
 
 
+def _member(spec):
+    A = rt.bt().algos
+    k = spec[0]
+    if k in ALGOS:
+        return getattr(A, k)()
+    if k == "RunOnce":
+        return A.RunOnce()
+    if k == "RunAfterDays":
+        return A.RunAfterDays(spec[1])
+    if k == "RunEveryNPeriods":
+        return A.RunEveryNPeriods(spec[1], offset=spec[2])
+    if k == "RunOnDate":
+        return A.RunOnDate(*spec[1])
+    if k == "RunAfterDate":
+        return A.RunAfterDate(spec[1])
+    raise KeyError(k)
+
+
+def _member_fires(spec, index, i):
+    """index = synthetic row + the data's own dates; i >= 1 is the position of a real date"""
+    k = spec[0]
+    j = i - 1  # ordinal among the dates the stack is run on
+    if k in ALGOS:
+        return expected(k, index, i, True, False, False) if k != "RunDaily" else expected(k, index, i, True, False, False)
+    if k == "RunOnce":
+        return j == 0
+    if k == "RunAfterDays":
+        return j >= spec[1]
+    if k == "RunEveryNPeriods":
+        return j >= spec[2] and (j - spec[2]) % spec[1] == 0
+    if k == "RunOnDate":
+        return index[i] in set(pd.Timestamp(x) for x in spec[1])
+    if k == "RunAfterDate":
+        return index[i] > pd.Timestamp(spec[1])
+    raise KeyError(k)
+
+
+def combo_case(item):
+    """schedulers combined with Or inside a real backtest, on data whose first row may be empty: the
+    stack gets past the Or exactly on the union of the dates each member describes (a counting
+    member counts every date of the data, whoever else fired)"""
+    bt = rt.bt()
+    A = bt.algos
+    members, dvariant, wrap = item
+    data = R.table("d25", "exact", late=False)
+    if dvariant == "nan_first":
+        data.iloc[0, :] = float("nan")
+    elif dvariant == "nan_partial":
+        data.iloc[0, 1:] = float("nan")
+    tap = R.Tap("s")
+    algos = [_member(m) for m in members]
+    gate = A.Or(algos) if wrap == "or" else algos[0]
+    s = bt.Strategy("s", [gate, tap])
+    b = bt.Backtest(s, data, progress_bar=False)
+    b.run()
+    got = R.taps(b.strategy, "s")
+    index = pd.DatetimeIndex([data.index[0] - pd.DateOffset(days=1)]).append(data.index)
+    exp = [str(index[i]) for i in range(1, len(index)) if any(_member_fires(m, index, i) for m in (members if wrap == "or" else members[:1]))]
+    viols = []
+    if got != exp:
+        viols.append({"rule": "scheduler_combination_in_backtest", "expected": {"members": [list(m) for m in members], "data": dvariant, "dates": exp}, "observed": got, "where": [[list(m) for m in members], dvariant, wrap]})
+    return (len(index), 1, viols, len(viols))
+
+
 def replay(case):
     k = case["kind"]
     if k == "window":
@@ -230,11 +295,14 @@ def replay(case):
         return [v for v in out if v["where"]["algo"] == w["algo"] and v["where"]["flags"] == w["flags"] and v["where"]["i"] == w["i"] and v["where"].get("skip") == w.get("skip")]
     if k == "counter":
         return counters_case(case["where"])[2]
+    if k == "combo":
+        w = case["where"]
+        return combo_case(([tuple(tuple(x) if isinstance(x, list) else x for x in m) for m in w[0]], w[1], w[2]))[2]
     return backtest_case(tuple(case["where"][:2]) + (case["where"][2], case["where"][3]))[2]
 
 
 def run(ctx):
-    ctx.rule = "every subset (size >= 2) of each 8-timestamp window as the data index x 5 calendar schedulers x 8 flag settings x every date of the index (+ synthetic row, None, off-index); counters x all parameters; schedulers inside real backtests; a case is non-trivial if it is a distinct (scheduler, flags, firing pattern)"
+    ctx.rule = "every subset (size >= 2) of each 8-timestamp window as the data index x 5 calendar schedulers x 8 flag settings x every date of the index (+ synthetic row, None, off-index); counters x all parameters; schedulers inside real backtests, alone and combined with Or (stateless x counting members, both orders) on data whose first row is complete, partly or wholly empty; a case is non-trivial if it is a distinct (scheduler, flags, firing pattern)"
     ctx.assumptions += [
         "first / last data date are decided by their flags alone (reading fixed by the pinned, passing test_run_period)",
         "week = ISO (year, week); quarter = (month-1)//3; oracle uses datetime only",
@@ -288,6 +356,27 @@ def run(ctx):
             ctx.mark(("bt", kd) + tuple(map(str, item)))
             for v in viols:
                 ctx.violation(dict(v, build=kd, module=MOD, case={"kind": "backtest", "where": list(item)}))
-    ctx.bounds = {"windows": use, "subsets_per_window": len(subsets), "counter_cases": len(citems), "backtests": len(bitems)}
+    stateless = [("RunWeekly",), ("RunMonthly",), ("RunOnDate", ("2019-12-18", "2020-01-02")), ("RunAfterDate", "2020-01-06")]
+    counting = [("RunAfterDays", 3), ("RunEveryNPeriods", 3, 1), ("RunEveryNPeriods", 2, 0), ("RunOnce",)]
+    combos = []
+    for dv in ("plain", "nan_first", "nan_partial"):
+        for m in stateless + counting + [("RunDaily",), ("RunQuarterly",), ("RunYearly",)]:
+            combos.append(([m], dv, "single"))
+        for a in stateless:
+            for c in counting:
+                combos.append(([a, c], dv, "or"))
+                combos.append(([c, a], dv, "or"))
+        for c1 in counting:
+            for c2 in counting:
+                if c1 != c2:
+                    combos.append(([c1, c2], dv, "or"))
+        combos.append(([stateless[0], counting[0], counting[1]], dv, "or"))
+    for kd in kinds:
+        for item, (n, npat, viols, nv) in ctx.run(kd, MOD, "combo_case", combos, chunksize=4):
+            ctx.add(states=1, transitions=n, traces_validated_against_impl=1, evaluations=1)
+            ctx.mark(("combo", kd, json.dumps(item, default=str)))
+            for v in viols:
+                ctx.violation(dict(v, build=kd, module=MOD, case={"kind": "combo", "where": v["where"]}))
+    ctx.bounds = {"scheduler_combinations": len(combos), "windows": use, "subsets_per_window": len(subsets), "counter_cases": len(citems), "backtests": len(bitems)}
     ctx.sample({"window": use[0], "index_subset_bits": 0b10110100, "algo": "RunWeekly", "flags": [True, False, False]})
     ctx.sample({"counter": citems[5]})
